@@ -27,11 +27,13 @@ impl Walrus {
 
 // ---- well-formedness of what read_next looks at (established by alloc_block / Writer / recovery units)
 pub open spec fn wf_block(b: Block) -> bool {
-    b.used <= b.limit && b.limit <= 0x4000_0000 && b.offset + b.limit <= 0xFFFF_FFFF_FFFF
+    b.used <= b.limit && b.limit <= 0x4000_0000 && b.offset + b.limit <= 0xFFFF_FFFF_FFFF && b.id < 0x8000_0000_0000_0000
 }
 pub open spec fn wf_col(c: ColReaderInfo) -> bool {
     &&& forall|i: int| 0 <= i < c.chain.len() ==> wf_block(#[trigger] c.chain[i])
     &&& c.cur_block_idx <= c.chain.len()
+    &&& c.chain.len() < 0x1_0000_0000
+    &&& c.tail_block_id < 0x8000_0000_0000_0000
 }
 pub open spec fn wf_writers(m: Map<String, WriterH>) -> bool {
     forall|k: String| #[trigger] m.contains_key(k) ==> wf_block(m[k].block) && m[k].written <= m[k].block.limit
@@ -76,4 +78,26 @@ pub proof fn lemma_marks_advance(calls: Seq<u64>, from: int, chain: Seq<Block>, 
             assert(chain[idx].id == calls2[k]);
         }
     }
+}
+
+// C09: a position written to the persisted index for the tail block the reader is already on must not lie
+// behind what this reader has consumed from that block in memory (otherwise a restart redelivers without bound)
+pub open spec fn persist_ok(e: (Seq<char>, u64, u64), c: ColReaderInfo) -> bool {
+    (e.1 == (c.tail_block_id | (1u64 << 63))) ==> e.2 >= c.tail_offset
+}
+pub open spec fn persists_ok(log: Seq<(Seq<char>, u64, u64)>, from: int, c: ColReaderInfo) -> bool {
+    forall|k: int| from <= k < log.len() ==> persist_ok(#[trigger] log[k], c)
+}
+
+pub proof fn lemma_tail_flag_inj(a: u64, b: u64)
+    requires a < 0x8000_0000_0000_0000, b < 0x8000_0000_0000_0000,
+    ensures (a | (1u64 << 63)) == (b | (1u64 << 63)) ==> a == b
+{
+    assert(a < 0x8000_0000_0000_0000 && b < 0x8000_0000_0000_0000 && (a | (1u64 << 63)) == (b | (1u64 << 63)) ==> a == b) by (bit_vector);
+}
+
+pub proof fn lemma_flag_ge(a: u64)
+    ensures (a | (1u64 << 63)) >= 0x8000_0000_0000_0000
+{
+    assert((a | (1u64 << 63)) >= 0x8000_0000_0000_0000) by (bit_vector);
 }
